@@ -152,6 +152,14 @@ theorem cancelBatches_frame (p : Batch → Bool) (s : State) :
     (cancelBatches p s).bal = s.bal ∧ (cancelBatches p s).pending = s.pending := by
   simp [cancelBatches]
 
+/-- `cleanupCalls` is `cleanupCallsCore` up to the from-message marks -/
+theorem cleanupCalls_core (s : State) : ∃ fm, cleanupCalls s = { cleanupCallsCore s with fromMsg := fm } := by
+  unfold cleanupCalls dropFromMsg
+  simp only
+  split
+  · exact ⟨_, rfl⟩
+  · exact ⟨_, rfl⟩
+
 theorem foldl_refundCall (cs : List Call) (s : State) :
     ((cs.foldl refundCall s).pool = s.pool ∧ (cs.foldl refundCall s).batches = s.batches ∧
      (cs.foldl refundCall s).calls = s.calls ∧ (cs.foldl refundCall s).nextTxId = s.nextTxId ∧
@@ -187,7 +195,9 @@ theorem expired_kept_perm (h : Nat) (cs : List Call) : (expiredCalls h cs ++ kep
     simpa using this
 
 theorem cleanupCalls_tx (s : State) : allTxIds (cleanupCalls s) = allTxIds s := by
-  unfold cleanupCalls
+  obtain ⟨fm, hfm⟩ := cleanupCalls_core s
+  rw [hfm]
+  unfold cleanupCallsCore
   obtain ⟨h1, h2, _, _, _, _, h7⟩ := foldl_refundCall (expiredCalls (heightOf callCleanupSrc s) s.calls)
     { s with calls := if callCleanupDeletes then keptCalls (heightOf callCleanupSrc s) s.calls else s.calls }
   simp only [allTxIds, poolIds, batchIds, batchTxs, h1, h2, h7, settledTxIds_append, settledTxIds_refunds, append_nil]
@@ -195,7 +205,9 @@ theorem cleanupCalls_tx (s : State) : allTxIds (cleanupCalls s) = allTxIds s := 
 theorem cleanupCalls_call (s : State) (a : Nat) :
     count a (allCallIds (cleanupCalls s)) = count a (allCallIds s) := by
   have hdel : callCleanupDeletes = true := by decide
-  unfold cleanupCalls
+  obtain ⟨fm, hfm⟩ := cleanupCalls_core s
+  rw [hfm]
+  unfold cleanupCallsCore
   simp only [hdel, if_true]
   obtain ⟨_, _, h3, _, _, _, h7⟩ := foldl_refundCall (expiredCalls (heightOf callCleanupSrc s) s.calls)
     { s with calls := keptCalls (heightOf callCleanupSrc s) s.calls }
@@ -206,7 +218,9 @@ theorem cleanupCalls_call (s : State) (a : Nat) :
 
 theorem cleanupCalls_next (s : State) :
     (cleanupCalls s).nextTxId = s.nextTxId ∧ (cleanupCalls s).nextCallId = s.nextCallId := by
-  unfold cleanupCalls
+  obtain ⟨fm, hfm⟩ := cleanupCalls_core s
+  rw [hfm]
+  unfold cleanupCallsCore
   obtain ⟨_, _, _, h4, h5, _, _⟩ := foldl_refundCall (expiredCalls (heightOf callCleanupSrc s) s.calls)
     { s with calls := if callCleanupDeletes then keptCalls (heightOf callCleanupSrc s) s.calls else s.calls }
   exact ⟨h4, h5⟩
@@ -219,6 +233,9 @@ theorem inv_of_counts {s s' : State} (hi : Inv s)
   refine ⟨?_, ?_, by rw [hn]; exact hi.txPos, by rw [hc]; exact hi.callPos⟩
   · rw [hn]; exact (perm_iff_count.mpr htx).trans hi.tx
   · rw [hc]; exact (perm_iff_count.mpr hcall).trans hi.call
+
+theorem inv_dropFromMsg (ns : List Nat) {s : State} (hi : Inv s) : Inv (dropFromMsg ns s) :=
+  ⟨hi.tx, hi.call, hi.txPos, hi.callPos⟩
 
 theorem inv_cancelBatches (p : Batch → Bool) {s : State} (hi : Inv s) : Inv (cancelBatches p s) := by
   obtain ⟨h1, h2, h3, h4, _, _⟩ := cancelBatches_frame p s
@@ -385,17 +402,48 @@ theorem inv_exec {s : State} (hi : Inv s) (n : Nat) : Inv (doExec s n).1 := by
       have hmem : c ∈ s.calls := mem_of_find?_eq_some hf
       simp only
       split
-      · refine inv_of_counts hi (fun x => by simp [allTxIds, poolIds, batchIds, batchTxs, settledTxIds_append, settledTxIds])
+      · apply inv_dropFromMsg
+        refine inv_of_counts hi (fun x => by simp [allTxIds, poolIds, batchIds, batchTxs, settledTxIds_append, settledTxIds])
           (fun x => ?_) rfl rfl
         have h1 := ((perm_cons_erase hmem).map (·.nonce)).count_eq x
         simp only [allCallIds, callIds, count_append, map_cons, count_cons, settledCallIds_append] at *
         simp only [settledCallIds, filter_cons, if_true, filter_nil, map_cons, map_nil, count_cons, count_nil]
         omega
-      · refine inv_refundCall c hi.tx hi.txPos hi.callPos ?_
+      · apply inv_dropFromMsg
+        refine inv_refundCall c hi.tx hi.txPos hi.callPos ?_
         refine (perm_iff_count.mpr (fun x => ?_)).trans hi.call
         have h1 := ((perm_cons_erase hmem).map (·.nonce)).count_eq x
         simp only [allCallIds, callIds, count_append, map_cons, count_cons] at *
         omega
+
+theorem inv_psend {s : State} (hi : Inv s) (a : Addr) (d : String) (t : Token) (am f : Nat) : Inv (doPSend s a d t am f).1 := by
+  unfold doPSend
+  split
+  · exact hi
+  · split
+    · exact hi
+    · refine ⟨?_, hi.call, by simp, hi.callPos⟩
+      refine perm_iff_count.mpr (fun x => ?_)
+      have h1 := ((insertDesc_perm ⟨s.nextTxId, a, d, t, am, f⟩ s.pool).map (·.id)).count_eq x
+      have h2 := hi.tx.count_eq x
+      have h3 := range'_succ_count s.nextTxId x hi.txPos
+      simp only [allTxIds, poolIds, batchIds, batchTxs, count_append, map_cons, count_cons, count_nil] at *
+      omega
+
+theorem inv_pcall {s : State} (hi : Inv s) (a r : Addr) (to d m : String) (cs : List (Token × Nat)) :
+    Inv (doPCall s a r to d m cs).1 := by
+  unfold doPCall
+  split
+  · simp only
+    split
+    · exact hi
+    · refine ⟨hi.tx, ?_, hi.txPos, by simp⟩
+      refine perm_iff_count.mpr (fun x => ?_)
+      have h2 := hi.call.count_eq x
+      have h3 := range'_succ_count s.nextCallId x hi.callPos
+      simp only [allCallIds, callIds, count_append, map_append, map_cons, map_nil, count_cons, count_nil] at *
+      omega
+  · exact hi
 
 theorem inv_step {s : State} (hi : Inv s) (op : Op) : Inv (step s op).1 := by
   cases op with
@@ -404,6 +452,8 @@ theorem inv_step {s : State} (hi : Inv s) (op : Op) : Inv (step s op).1 := by
   | incFee id who t add => exact inv_incFee hi id who t add
   | reqBatch t mf bf fr => exact inv_reqBatch hi t mf bf fr
   | bridgeCall a r to d m cs => exact inv_bridgeCall hi a r to d m cs
+  | psend a d t am f => exact inv_psend hi a d t am f
+  | pcall a r to d m cs => exact inv_pcall hi a r to d m cs
   | observe h ev => exact inv_observe hi h ev
   | exec n => exact inv_exec hi n
   | setParams p =>
@@ -479,7 +529,9 @@ theorem getBal_creditAll (who : Addr) (cs : List (Token × Nat)) (b : Bal) (a : 
 theorem cleanupCalls_settled (s : State) :
     (cleanupCalls s).settled = s.settled ++ (expiredCalls (heightOf callCleanupSrc s) s.calls).map
       (fun c => (⟨true, c.nonce, .refunded, c.refund, c.tokens⟩ : Settle)) := by
-  unfold cleanupCalls
+  obtain ⟨fm, hfm⟩ := cleanupCalls_core s
+  rw [hfm]
+  unfold cleanupCallsCore
   obtain ⟨_, _, _, _, _, _, h7⟩ := foldl_refundCall (expiredCalls (heightOf callCleanupSrc s) s.calls)
     { s with calls := if callCleanupDeletes then keptCalls (heightOf callCleanupSrc s) s.calls else s.calls }
   simp only [h7]
@@ -501,6 +553,8 @@ theorem settled_grows (s : State) (op : Op) : ∃ l, (step s op).1.settled = s.s
   | incFee id who t add => simp only [step]; unfold doIncFee; (repeat' split) <;> exact ⟨[], by simp⟩
   | reqBatch t mf bf fr => simp only [step]; unfold doReqBatch; simp only; (repeat' split) <;> exact ⟨[], by simp⟩
   | bridgeCall a r to d m cs => simp only [step]; unfold doBridgeCall; simp only; (repeat' split) <;> exact ⟨[], by simp⟩
+  | psend a d t am f => simp only [step]; unfold doPSend; (repeat' split) <;> exact ⟨[], by simp⟩
+  | pcall a r to d m cs => simp only [step]; unfold doPCall; simp only; (repeat' split) <;> exact ⟨[], by simp⟩
   | setParams p => simp only [step]; (repeat' split) <;> exact ⟨[], by simp⟩
   | block n => exact ⟨[], by simp [step, endBlock_eq]⟩
   | exec n =>
